@@ -265,6 +265,9 @@ def hoist(text, site, lets):
     return "".join(out)
 
 
+TRY_TWIN = [False]
+
+
 def twin_stmts(chain, st, fnitems):
     """the documented meaning, step by step: captures of the step first (in position order), then the step's method chain"""
     items = chain["items"]
@@ -273,6 +276,8 @@ def twin_stmts(chain, st, fnitems):
     cur = "x"
     k = 0
     step = 0
+    if TRY_TWIN[0] and nodes and items[nodes[0]["site"] - 1]["deferred"]:
+        stmts.append("if let Some(__j) = rt::sem::abort(&x) { return __j; }")      # the initial expression is a step of its own
     while k < len(nodes):
         j = k + 1
         while j < len(nodes) and not items[nodes[j]["site"] - 1]["deferred"]:
@@ -284,6 +289,9 @@ def twin_stmts(chain, st, fnitems):
         stmts.append(f"let mut __s{step} = {expr};")
         cur = f"__s{step}"
         k = j
+        if TRY_TWIN[0] and k < len(nodes):
+            # a try macro stops at the end of a failed step
+            stmts.append(f"if let Some(__j) = rt::sem::abort(&{cur}) {{ return __j; }}")
     return stmts, cur
 
 
@@ -373,8 +381,34 @@ def result_type(chain):
     return RT[ty]
 
 
-def sorted_cases(chain):
-    return sorted(chain["cases"], key=lambda c: json.dumps(c["inp"], sort_keys=True))
+def sorted_cases(chain, variant=None):
+    """expected (input, value, calls) per input; under a try macro a chain with later steps has its own expectation"""
+    key = "tcases" if variant is not None and try_sem(variant) and chain.get("tcases") else "cases"
+    return sorted(chain[key], key=lambda c: json.dumps(c["inp"], sort_keys=True))
+
+
+def evaluating_macro(variant):
+    """the macro that evaluates the chain itself (innermost for nesting variants)"""
+    if variant.startswith("nest|"):
+        return variant.split("|")[2]
+    if variant.startswith("nest3|"):
+        return variant.split("|")[3]
+    if variant.startswith("awrap"):
+        return "join"       # inside the wrapper the chain is one expression: no step check applies to it
+    return variant
+
+
+def try_sem(variant):
+    return evaluating_macro(variant).startswith("try_")
+
+
+CARRIERS = ("OI", "OOI", "RI", "OP")
+
+
+def try_typed(chain):
+    """can the chain be the branch of a try macro?  Its value at the end of every step must be an Option / Result"""
+    st = site_types(chain)
+    return chain["ty"] in CARRIERS and all(st[i]["ty"] in CARRIERS for i, it in enumerate(chain["items"], 1) if it["deferred"])
 
 
 SPAWNING = ("join_spawn", "try_join_spawn", "spawn", "try_spawn")
@@ -477,7 +511,7 @@ def macro_expr(chain, variant, mchain):
 
 def chain_fns(name, chain, variant="join"):
     """returns (macro fn source, twin fn source)"""
-    cases = sorted_cases(chain)
+    cases = sorted_cases(chain, variant)
     start = chain["start"]
     arms = "".join(f"{k} => {input_expr(start, c['inp'])}, " for k, c in enumerate(cases[:-1]))
     arms += f"_ => {input_expr(start, cases[-1]['inp'])}"
@@ -488,6 +522,7 @@ def chain_fns(name, chain, variant="join"):
     mitems, titems = [], []
     STREAM[0] = variant in ("join_async", "join_async_spawn")
     TICKS[0] = variant in TICK_VARIANTS
+    TRY_TWIN[0] = try_sem(variant)
     FNMUT.clear()
     FNMUT.update(fnmut_sites(chain))
     SALT[0] = sum(map(ord, name)) + len(chain["items"])
